@@ -210,6 +210,10 @@ class Ref:
         self.out = []
         self.parent = list(range(nocc + 1))
         self.steps = 0
+        self.flags = set()          # which scoping situations this run went through (for the distribution)
+        self.fnbase = [(0, 0)]      # (length of the closure part of the current environment, id of the function's name)
+        self.active = []
+        self.cur_env = None
 
     # union-find over occurrence ids
     def find(self, x):
@@ -230,13 +234,22 @@ class Ref:
             # the clash is between two occurrences of one variable slot: they can only be renamed together
             self.link(occ.id, top[occ.name][1])
             raise Stop("already", occ.name)
+        if any(occ.name in sc for sc in env[:-1]):
+            self.flags.add("shadowing")
         top[occ.name] = [v, occ.id]
 
     def cell(self, env, occ):
-        for sc in reversed(env):
-            c = sc.get(occ.name)
+        for i in range(len(env) - 1, -1, -1):
+            c = env[i].get(occ.name)
             if c is not None:
                 self.link(occ.id, c[1])
+                base, fid = self.fnbase[-1]
+                if i < base and i > 0:
+                    self.flags.add("captured-local")
+                if i < base and c[1] > fid and not isinstance(c[0], Fn):
+                    self.flags.add("captured-declared-after-fn")
+                if i < len(env) - 1:
+                    self.flags.add("outer-scope-use")
                 return c
         raise Stop("undefined", occ.name)
 
@@ -250,13 +263,22 @@ class Ref:
             raise Stop("notfunc", "")
         nd = f.node
         env = f.env + [{}]
-        self.declare(env, nd[2], v)
+        if id(nd) in self.active:
+            self.flags.add("recursion")
+        if self.cur_env is not None and not any(sc is f.env[-1] for sc in self.cur_env):
+            self.flags.add("closure-outlives-scope")
+        self.active.append(id(nd))
+        self.fnbase.append((len(f.env), nd[1].id))
         try:
+            self.declare(env, nd[2], v)
             if self.cell(env, nd[3])[0] < 0:
                 return None
             self.run(nd[4], env)
         except Ret as r:
             return r.v
+        finally:
+            self.active.pop()
+            self.fnbase.pop()
         return None
 
     def run(self, stmts, env):
@@ -267,6 +289,8 @@ class Ref:
                 self.declare(env, s[1], s[2])
             elif k == "asg":
                 c = self.cell(env, s[1])
+                if s[1].name not in env[-1]:
+                    self.flags.add("assign-to-outer")
                 c[0] = c[0] + s[2]
             elif k == "read":
                 v = self.cell(env, s[1])[0]
@@ -276,6 +300,7 @@ class Ref:
             elif k == "fn":
                 self.declare(env, s[1], Fn(s, list(env)))
             elif k == "loop":
+                self.flags.add("loop")
                 for i in (0, 1):
                     e2 = env + [{}]
                     self.declare(e2, s[1], i)
@@ -283,12 +308,14 @@ class Ref:
             elif k == "call":
                 a = self.arg(env, s[3])
                 f = self.cell(env, s[2])[0]
+                self.cur_env = env
                 self.declare(env, s[1], self.call(f, a))
             elif k == "ret":
                 raise Ret(self.cell(env, s[1])[0])
             elif k == "inv":
                 a = self.arg(env, s[2])
                 f = self.cell(env, s[1])[0]
+                self.cur_env = env
                 self.call(f, a)
 
 
@@ -368,3 +395,246 @@ def renamings(ast, ref):
             one[oid] = fresh
         singles.append((name, one))
     return allr, singles
+
+
+# ---------------------------------------------------------------------------- text -> AST (for --replay)
+import re as _re
+
+_PATS = [
+    ("decl", _re.compile(r"^(\w+) := (\d+)$")),
+    ("asg", _re.compile(r"^(\w+) \+= (\d+)$")),
+    ("read0", _re.compile(r"^print\((\w+)\)$")),
+    ("read1", _re.compile(r"^print\(\{(\w+)\}\)$")),
+    ("fn", _re.compile(r"^fn (\w+)\((\w+)\) \{$")),
+    ("guard", _re.compile(r"^if (\w+) < 0 \{ return null; \}$")),
+    ("loop", _re.compile(r"^for \[_, (\w+)\] in 0 \.\. 2 \{$")),
+    ("call", _re.compile(r"^(\w+) := (\w+)\((2|(\w+) - 1)\)$")),
+    ("ret", _re.compile(r"^return (\w+)$")),
+    ("inv", _re.compile(r"^(\w+)\((2|(\w+) - 1)\)$")),
+]
+
+
+def parse_text(src):
+    """inverse of `render` on un-renamed programs; None when the text is not one of ours"""
+    b = Builder()
+    lines = [l.strip() for l in src.split("\n") if l.strip()]
+    pos = [0]
+
+    def arg(m, g):
+        return ("lit", 2) if m.group(g) == "2" else ("nm1", b.occ(m.group(g + 1)))
+
+    def block():
+        body = []
+        while pos[0] < len(lines):
+            l = lines[pos[0]]
+            if l == "}":
+                return body
+            pos[0] += 1
+            if l == "{":
+                inner = block()
+                pos[0] += 1
+                body.append(("block", inner))
+                continue
+            for k, p in _PATS:
+                m = p.match(l)
+                if not m:
+                    continue
+                if k == "decl":
+                    body.append(("decl", b.occ(m.group(1), True), int(m.group(2))))
+                elif k == "asg":
+                    body.append(("asg", b.occ(m.group(1)), int(m.group(2))))
+                elif k == "read0":
+                    body.append(("read", b.occ(m.group(1)), 0))
+                elif k == "read1":
+                    body.append(("read", b.occ(m.group(1)), 1))
+                elif k == "fn":
+                    f, n = b.occ(m.group(1), True), b.occ(m.group(2), True)
+                    g = _PATS[5][1].match(lines[pos[0]]) if pos[0] < len(lines) else None
+                    if not g:
+                        raise ValueError("guard")
+                    pos[0] += 1
+                    gn = b.occ(g.group(1))
+                    inner = block()
+                    pos[0] += 1
+                    body.append(("fn", f, n, gn, inner))
+                elif k == "loop":
+                    w = b.occ(m.group(1), True)
+                    inner = block()
+                    pos[0] += 1
+                    body.append(("loop", w, inner))
+                elif k == "call":
+                    r, f = b.occ(m.group(1), True), b.occ(m.group(2))
+                    body.append(("call", r, f, arg(m, 3)))
+                elif k == "ret":
+                    body.append(("ret", b.occ(m.group(1))))
+                elif k == "inv":
+                    body.append(("inv", b.occ(m.group(1)), arg(m, 2)))
+                elif k == "guard":
+                    raise ValueError("stray guard")
+                break
+            else:
+                raise ValueError(l)
+        return body
+    try:
+        ast = block()
+        if pos[0] != len(lines):
+            return None
+        return ast, b.n
+    except (ValueError, IndexError):
+        return None
+
+
+def random_sequences(rng, count, lo=8, hi=14):
+    """random longer token sequences (every prefix passes the pruning rules); closing and calling tokens are favoured
+    so that closures escape, get invoked and recurse"""
+    weights = {"Da": 3, "Db": 2, "Aa": 2, "Ab": 1, "Ra": 3, "Rb": 2, "{": 1, "F": 3, "W": 1, "}": 4, "C": 3, "T": 2, "V": 3}
+    toks = list(weights)
+    w = [weights[t] for t in toks]
+    out = []
+    while len(out) < count:
+        n = rng.randrange(lo, hi + 1)
+        seq = ()
+        tries = 0
+        while len(seq) < n and tries < 200:
+            tries += 1
+            t = rng.choices(toks, w)[0]
+            if build(seq + (t,), final=False) is not None:
+                seq = seq + (t,)
+        if build(seq) is not None:
+            out.append(seq)
+    return out
+
+
+class RandomAst:
+    """larger scope-operation programs: nested functions that declare locals, return inner functions that read and
+    update them, callers that hold same-named variables of their own (the dynamic-scoping trap), blocks and loops
+    around definitions and calls, declarations placed after the function that uses them"""
+
+    NAMES = ["a", "b", "c"]
+
+    def __init__(self, rng):
+        self.r = rng
+        self.b = Builder()
+        self.nf = 0
+        self.nr = 0
+        self.nw = 0
+
+    def block(self, depth, scopes, funcs, results, infn):
+        r = self.r
+        body = []
+        here = set()
+        scopes = scopes + [here]
+        funcs = list(funcs)
+        results = list(results)
+        visible = lambda: [x for x in self.NAMES if any(x in s for s in scopes)]
+        mine = []
+        for _ in range(r.randrange(2, 6)):
+            c = r.random()
+            vis = visible()
+            if c < 0.22:
+                cand = [x for x in self.NAMES if x not in here] or self.NAMES
+                x = r.choice(cand if r.random() < 0.95 else self.NAMES)
+                here.add(x)
+                body.append(("decl", self.b.occ(x, True), 1000 * (self.b.n % 9 + 1)))
+            elif c < 0.36:
+                x = r.choice(vis) if vis and r.random() < 0.95 else r.choice(self.NAMES)
+                body.append(("asg", self.b.occ(x), 1))
+            elif c < 0.56:
+                x = r.choice(vis) if vis and r.random() < 0.95 else r.choice(self.NAMES)
+                body.append(("read", self.b.occ(x), 1 if r.random() < 0.15 else 0))
+            elif c < 0.62 and depth < 3:
+                if depth < 2 and r.random() < 0.5:
+                    body.extend(self.idiom(here, funcs, results, infn))
+                else:
+                    body.append(("block", self.block(depth + 1, scopes, funcs, results, infn)))
+            elif c < 0.68 and depth < 3:
+                self.nw += 1
+                body.append(("loop", self.b.occ(f"w{self.nw}", True), self.block(depth + 1, scopes, funcs, results, infn)))
+            elif c < 0.80 and depth < 3:
+                name = f"f{self.nf}"
+                self.nf += 1
+                f, n, g = self.b.occ(name, True), self.b.occ("n", True), self.b.occ("n")
+                funcs.append(name)            # visible to itself (recursion) and to what follows
+                mine.append(name)
+                inner = self.block(depth + 1, scopes + [{"n"}], funcs, results, True)
+                body.append(("fn", f, n, g, inner))
+            elif c < 0.88 and funcs:
+                f = r.choice(funcs[-3:])
+                self.nr += 1
+                rn = f"r{self.nr}"
+                arg = ("nm1", self.b.occ("n")) if infn else ("lit", 2)
+                body.append(("call", self.b.occ(rn, True), self.b.occ(f), arg))
+                results.append(rn)
+            elif results:
+                rn = r.choice(results[-2:])
+                arg = ("nm1", self.b.occ("n")) if infn else ("lit", 2)
+                body.append(("inv", self.b.occ(rn), arg))
+            else:
+                x = r.choice(vis) if vis else "a"
+                body.append(("read", self.b.occ(x), 0))
+        if infn and mine and r.random() < 0.8:
+            body.append(("ret", self.b.occ(r.choice(mine))))
+        elif infn and funcs and r.random() < 0.3:
+            body.append(("ret", self.b.occ(r.choice(funcs[-2:]))))
+        return body
+
+    def idiom(self, here, funcs, results, infn):
+        """a function with a local, returning an inner function that reads/updates it; the result is invoked from a
+        block that may hold a variable of the same name; a second activation gets a fresh local"""
+        r, o = self.r, self.b.occ
+        x = r.choice(self.NAMES)
+        outer, inner = f"f{self.nf}", f"f{self.nf + 1}"
+        self.nf += 2
+        ib = []
+        if r.random() < 0.6:
+            ib.append(("asg", o(x), 1))
+        ib.append(("read", o(x), 0))
+        if r.random() < 0.25:
+            ib.append(("decl", o(x, True), 7000))        # a later declaration in the inner body
+            ib.append(("read", o(x), 0))
+        ob = []
+        late = r.random() < 0.3
+        if not late:
+            ob.append(("decl", o(x, True), 2000))
+        ob.append(("fn", o(inner, True), o("n", True), o("n"), ib))
+        if late:
+            ob.append(("decl", o(x, True), 2000))         # declared after the function that captures it
+        if r.random() < 0.5:
+            ob.append(("asg", o(x), 1))
+        ob.append(("ret", o(inner)))
+        out = [("fn", o(outer, True), o("n", True), o("n"), ob)]
+        funcs.append(outer)
+        arg = lambda: ("nm1", o("n")) if infn else ("lit", 2)
+        self.nr += 2
+        r1, r2 = f"r{self.nr - 1}", f"r{self.nr}"
+        out.append(("call", o(r1, True), o(outer), arg()))
+        use = [("inv", o(r1), arg())]
+        if r.random() < 0.6:
+            use.insert(0, ("decl", o(x, True), 5000))     # the caller's own variable of the same name
+        use.append(("inv", o(r1), arg()))
+        if r.random() < 0.5:
+            use.append(("read", o(x), 0))
+        out.append(("block", use) if r.random() < 0.7 else ("loop", o(f"w{self.nw + 100}", True), use))
+        self.nw += 1
+        out.append(("call", o(r2, True), o(outer), arg()))
+        out.append(("inv", o(r2), arg()))
+        results.extend([r1, r2])
+        return out
+
+    def program(self):
+        ast = self.block(0, [], [], [], False)
+        return ast, self.b.n
+
+
+def random_programs(rng, count, max_steps=3000):
+    out = []
+    while len(out) < count:
+        ast, nocc = RandomAst(rng).program()
+        try:
+            o, st, kind, ref = reference(ast, nocc)
+        except RecursionError:
+            continue
+        if ref.steps > max_steps or not o:
+            continue
+        out.append((ast, nocc, o, st, kind, ref))
+    return out
